@@ -1,4 +1,5 @@
-import LoguruModel.FileSink.Lemmas
+import LoguruModel.FileSink.OrderLemmas
+import LoguruModel.FileSink.UsableLemmas
 /-!
 C08 – file sink loses nothing across rotation / compression / retention, even under injected faults.
 Only property theorems and their non-vacuity examples.  Every statement quantifies over ALL
@@ -26,6 +27,16 @@ opened for writing ever existed at the moment of the call, for any history and a
 theorem rename_never_overwrites (cfg : Cfg) (ops : List Op) (fs : FS) (faults : List Bool) (nid : Nat) :
     (run cfg ops (start fs faults nid)).clobbered = [] :=
   (run_inv cfg ops (start fs faults nid) ⟨(by intro m hm; cases hm), rfl⟩).2
+
+/-- **order_preserved** (within files): after any history and any faults every file and every archive holds
+its message ids in strictly increasing order, i.e. in logging order (ids are call numbers), provided the
+initial directory did (pre-existing content below the first id).  Order *across* files is judged on the
+real directory by harness/c08.py. -/
+theorem order_preserved (cfg : Cfg) (ops : List Op) (fs : FS) (faults : List Bool) (nid : Nat)
+    (h0 : OrdF fs nid) :
+    let w := run cfg ops (start fs faults nid)
+    ∀ n e, w.fs.get n = some e → e.content.Pairwise (· < ·) ∧ ∀ x ∈ e.content, x < w.nextId :=
+  run_ord cfg ops (start fs faults nid) h0
 
 /-- the name `generate_rename_path` returns does not exist (any directory, any candidate family) -/
 theorem rename_target_fresh (fs : FS) (cand : Nat → Name) (r : Name) (h : genRename fs cand = some r) :
@@ -108,7 +119,6 @@ theorem generated_shape :
     Gen.writeOrder = [.lazyCreate, .reopen, .rotationTest, .terminate, .writeMessage] ∧
     Gen.makedirsExistOk = true := by decide
 
-def isOk (r : Except Err Unit) : Bool := match r with | .ok _ => true | .error _ => false
 def isValueError (r : Except Err Unit) : Bool := match r with | .error .valueError => true | _ => false
 
 /-- FULL statement of `sink_usable_after_any_fault` (false of the current code, finding F13): after any
@@ -143,6 +153,15 @@ theorem sink_usable_statement_false : ¬ sink_usable_statement := by
       (run witnessCfg [.write (witnessOrc false), .write (witnessOrc true)]
         (start [] [false, false, false, false, false, false, true] 0))).1 = false := by decide +kernel
   rw [h2] at h1; cases h1
+
+/-- **sink_usable_after_any_fault**, proved part (explicit guard: the file object is not a closed one, i.e.
+no `close()` failed): after ANY history – whatever half-finished rotation, compression or retention
+preceded – a call with no fault pending and no rotation due is acknowledged. -/
+theorem sink_usable_partial (cfg : Cfg) (ops : List Op) (fs : FS) (faults : List Bool) (nid : Nat) (o : Orc)
+    (hguard : (run cfg ops (start fs faults nid)).closed = false)
+    (hf : (run cfg ops (start fs faults nid)).faults = []) (hr : o.rot = false) (hw : cfg.watch = false) :
+    isOk (writeBody cfg o (run cfg ops (start fs faults nid))).1 = true :=
+  write_ok_of_good cfg o _ hf hguard hr hw
 
 /-- non-vacuity: a history with a rotation, a collision and a compression acknowledges messages that end
 up in an archive -/
